@@ -3,7 +3,7 @@
    run over files x instances x interleavings; (2) the GENERATOR of the complete abstract case
    space (methods x field subsets x metadata subsets x bad entries; runs = kind x shared-client x
    instances x file order) that `vdrive grpcwire` renders and runs through the real code. *)
-EXTENDS GrpcWire, Json, SequencesExt
+EXTENDS GrpcWire, Json, SequencesExt, IOUtils
 
 CONSTANTS MaxInst, MaxFile, Kinds, Full
 
@@ -35,13 +35,15 @@ Both     == {"json", "scn"}
 
 (******************************* generator *********************************)
 FieldSubsets(m) == {SelectSeq(InputType(m), LAMBDA x : x \in S) : S \in SUBSET Rng(InputType(m))}
-MdSeq(S) == SelectSeq(<<"a", "b", "auth">>, LAMBDA k : k \in S)
+MdSeq(S) == SelectSeq(<<"a", "b", "auth", "payload">>, LAMBDA k : k \in S)
 Abs(m, fs, mds, bad, st, nu) == [call |-> m, fields |-> fs, md |-> MdSeq(mds), bad |-> bad, style |-> st, num |-> nu]
 Styles == IF Full THEN {"proto", "camel"} ELSE {"rot"}
 Nums   == IF Full THEN {"number", "string"} ELSE {"rot"}
 GoodAbs == {Abs(m, fs, mds, "none", st, nu) : m \in Methods, fs \in UNION {FieldSubsets(mm) : mm \in Methods},
                                              mds \in SUBSET MdKeys, st \in Styles, nu \in Nums}
-GoodSet == {a \in GoodAbs : a.fields \in FieldSubsets(a.call)}
+\* a metadata entry may have any name -- also the ones the implementation uses internally ("payload")
+NameClash == {Abs(m, InputType(m), mds, "none", "rot", "rot") : m \in Methods, mds \in {{"payload"}, {"a", "payload"}}}
+GoodSet == {a \in GoodAbs : a.fields \in FieldSubsets(a.call)} \cup NameClash
 BadSet  == {Abs("Hello", <<>>, mds, "unknown", "rot", "rot") : mds \in {{}, {"a"}, {"a", "b", "auth"}}}
            \cup {a \in {Abs(m, fs, mds, "illtyped", "rot", "rot") : m \in Methods,
                         fs \in UNION {FieldSubsets(mm) : mm \in Methods}, mds \in {{}, {"b"}}} :
@@ -66,8 +68,10 @@ EntriesOut == [i \in 1..N |-> Entry(i) @@ [expect |-> Expect(Woven[i])]]
 \* templated metadata keys, so every scenario shot of every instance renders the SAME shared step
 IsTail(a) == a.call = "Hello" /\ Len(a.fields) = 1 /\ a.md = <<"a", "b", "auth">> /\ a.bad = "none"
 TailId == CHOOSE i \in 1..N : IsTail(Woven[i]) /\ \A j \in 1..(i - 1) : ~IsTail(Woven[j])
-Fwd == [i \in 1..N |-> i]
-Rev == [i \in 1..N |-> N + 1 - i]
+\* VERIF_SEED rotates the file: a different neighbourhood for every entry, another first/last entry
+Shift == (atoi(IOEnv.VERIF_SEED) * 37) % N
+Fwd == [i \in 1..N |-> ((i - 1 + Shift) % N) + 1]
+Rev == [i \in 1..N |-> ((N - i + Shift) % N) + 1]
 BadIdx == SelectSeq(Fwd, LAMBDA i : Woven[i].bad # "none")
 BadFirst == BadIdx \o SelectSeq(Fwd, LAMBDA i : Woven[i].bad = "none")
 Run(k, s, n, o, x) == [kind |-> k, shared |-> s, inst |-> n, order |-> o, extra |-> x]
